@@ -133,6 +133,23 @@ func compare(n *ir.E, e *yang.Entry, path string, w What, d map[string]bool) {
 			if n.Max != "" && (e.ListAttr == nil || fmt.Sprint(e.ListAttr.MaxElements) != n.Max) {
 				add("max-elements differ, want %s", n.Max)
 			}
+			// constraints and extension statements written on the node travel with every copy
+			wantMust := 0
+			if n.Must != "" {
+				wantMust = 1
+			}
+			if got := len(e.Extra["must"]); got != wantMust {
+				add("%d must constraints, want %d", got, wantMust)
+			}
+			var notes []string
+			for _, x := range e.Exts {
+				if x.Keyword == "x:note" {
+					notes = append(notes, x.Argument)
+				}
+			}
+			if want := n.Ext; (want == "" && len(notes) > 0) || (want != "" && (len(notes) != 1 || notes[0] != want)) {
+				add("extension statements %q, want %q", notes, want)
+			}
 		}
 	}
 	kids := Kids(e)
